@@ -27,7 +27,7 @@ def seed_table():
 
 p = os.path.join(HERE, "DESIGN.md")
 s = open(p).read()
-s = re.sub(r"<!-- COVERAGE-TABLE-BEGIN -->.*?<!-- COVERAGE-TABLE-END -->", "<!-- COVERAGE-TABLE-BEGIN -->\n" + cov_table() + "\n<!-- COVERAGE-TABLE-END -->", s, flags=re.S)
-s = re.sub(r"<!-- SEED-TABLE-BEGIN -->.*?<!-- SEED-TABLE-END -->", "<!-- SEED-TABLE-BEGIN -->\n" + seed_table() + "\n<!-- SEED-TABLE-END -->", s, flags=re.S)
+s = re.sub(r"<!-- COVERAGE-TABLE-BEGIN -->.*?<!-- COVERAGE-TABLE-END -->", lambda m: "<!-- COVERAGE-TABLE-BEGIN -->\n" + cov_table() + "\n<!-- COVERAGE-TABLE-END -->", s, flags=re.S)
+s = re.sub(r"<!-- SEED-TABLE-BEGIN -->.*?<!-- SEED-TABLE-END -->", lambda m: "<!-- SEED-TABLE-BEGIN -->\n" + seed_table() + "\n<!-- SEED-TABLE-END -->", s, flags=re.S)
 open(p, "w").write(s)
 print("tables updated")
